@@ -1,9 +1,13 @@
 /* ================================================================== printing (C04, C05, C08, C09, C14) */
 /* ghost record of the last ensure() call as seen by a writer (callee view), and of delegated writers */
-unsigned char *g_ens_win; _Bool g_ens_ok; size_t g_ens_needed; size_t g_ens_calls;   /* scalars only: ghost pointers set by assumption cannot be dereferenced */
+struct vf_ens_ghost { unsigned char * ens_win; _Bool ens_ok; size_t ens_needed; size_t ens_calls; } g_en;
+#define g_ens_win g_en.ens_win
+#define g_ens_ok g_en.ens_ok
+#define g_ens_needed g_en.ens_needed
+#define g_ens_calls g_en.ens_calls
+#define GHOST_ENS g_en
 _Bool g_pv_nullbuf;   /* ghost: the value printer came back with a released (NULL) buffer */
 unsigned char g_snap;      /* ghost snapshot: byte of the old buffer at index g_k (constrained by a requires clause) */
-#define GHOST_ENS g_ens_win, g_ens_ok, g_ens_needed, g_ens_calls
 
 /* print buffer invariant, derived from the code: length == 0 is reachable (cJSON_PrintBuffered(item, 0, fmt),
  * cJSON_PrintPreallocated(.., 0, ..)) and then offset == 0; otherwise offset < length. */
@@ -87,9 +91,19 @@ __CPROVER_assigns(GHOST_ENS, GHOST_ALLOC, GHOST_FMT; output_buffer != NULL: outp
 
 /* ------------------------------------------------------------------ writers as callees (callee views with a log) */
 /* snapshot of the print buffer a delegated writer received */
-unsigned char *g_wb_buffer; size_t g_wb_length, g_wb_offset, g_wb_depth; cJSON_bool g_wb_noalloc, g_wb_format; const cJSON *g_wb_item; size_t g_wb_calls;
-void *(*g_wb_alloc)(size_t); void (*g_wb_free)(void*); void *(*g_wb_realloc)(void*, size_t);
-#define GHOST_WB g_wb_buffer, g_wb_length, g_wb_offset, g_wb_depth, g_wb_noalloc, g_wb_format, g_wb_item, g_wb_calls, g_wb_alloc, g_wb_free, g_wb_realloc
+struct vf_wb_ghost { unsigned char * wb_buffer; size_t wb_length; size_t wb_offset; size_t wb_depth; cJSON_bool wb_noalloc; cJSON_bool wb_format; const cJSON * wb_item; size_t wb_calls; void *(*wb_alloc)(size_t); void (*wb_free)(void*); void *(*wb_realloc)(void*, size_t); } g_wbg;
+#define g_wb_buffer g_wbg.wb_buffer
+#define g_wb_length g_wbg.wb_length
+#define g_wb_offset g_wbg.wb_offset
+#define g_wb_depth g_wbg.wb_depth
+#define g_wb_noalloc g_wbg.wb_noalloc
+#define g_wb_format g_wbg.wb_format
+#define g_wb_item g_wbg.wb_item
+#define g_wb_calls g_wbg.wb_calls
+#define g_wb_alloc g_wbg.wb_alloc
+#define g_wb_free g_wbg.wb_free
+#define g_wb_realloc g_wbg.wb_realloc
+#define GHOST_WB g_wbg
 #define WB_LOGGED(item, p) (g_wb_item == (item) && g_wb_buffer == __CPROVER_old((p)->buffer) && g_wb_length == __CPROVER_old((p)->length) && \
     g_wb_offset == __CPROVER_old((p)->offset) && g_wb_depth == __CPROVER_old((p)->depth) && g_wb_noalloc == __CPROVER_old((p)->noalloc) && g_wb_format == __CPROVER_old((p)->format) && \
     g_wb_alloc == __CPROVER_old((p)->hooks.allocate) && g_wb_free == __CPROVER_old((p)->hooks.deallocate) && g_wb_realloc == __CPROVER_old((p)->hooks.reallocate) && \
